@@ -1,13 +1,49 @@
 // @unit c06_has_default property=C06 attach=typify-impl/src/structs.rs
-// @h c06_has_default_option tier=both
-// @h c06_has_default_vec tier=both
-// @h c06_has_default_map tier=both
-// @h c06_has_default_unit tier=both
-// @h c06_has_default_boolean tier=both
-// @h c06_has_default_integer tier=both
-// @h c06_has_default_string tier=both
-// @h c06_has_default_float tier=both
-// @h c06_has_default_unresolved tier=both
+// @h c06_has_default_option_absent_null_bool tier=both
+// @h c06_has_default_option_numbers tier=both
+// @h c06_has_default_option_strings tier=both
+// @h c06_has_default_option_arrays tier=both
+// @h c06_has_default_option_objects tier=both
+// @h c06_has_default_vec_absent_null_bool tier=both
+// @h c06_has_default_vec_numbers tier=both
+// @h c06_has_default_vec_strings tier=both
+// @h c06_has_default_vec_arrays tier=both
+// @h c06_has_default_vec_objects tier=both
+// @h c06_has_default_map_absent_null_bool tier=both
+// @h c06_has_default_map_numbers tier=both
+// @h c06_has_default_map_strings tier=both
+// @h c06_has_default_map_arrays tier=both
+// @h c06_has_default_map_objects tier=both
+// @h c06_has_default_unit_absent_null_bool tier=both
+// @h c06_has_default_unit_numbers tier=both
+// @h c06_has_default_unit_strings tier=both
+// @h c06_has_default_unit_arrays tier=both
+// @h c06_has_default_unit_objects tier=both
+// @h c06_has_default_boolean_absent_null_bool tier=both
+// @h c06_has_default_boolean_numbers tier=both
+// @h c06_has_default_boolean_strings tier=both
+// @h c06_has_default_boolean_arrays tier=both
+// @h c06_has_default_boolean_objects tier=both
+// @h c06_has_default_integer_absent_null_bool tier=both
+// @h c06_has_default_integer_numbers tier=both
+// @h c06_has_default_integer_strings tier=both
+// @h c06_has_default_integer_arrays tier=both
+// @h c06_has_default_integer_objects tier=both
+// @h c06_has_default_string_absent_null_bool tier=both
+// @h c06_has_default_string_numbers tier=both
+// @h c06_has_default_string_strings tier=both
+// @h c06_has_default_string_arrays tier=both
+// @h c06_has_default_string_objects tier=both
+// @h c06_has_default_float_absent_null_bool tier=both
+// @h c06_has_default_float_numbers tier=both
+// @h c06_has_default_float_strings tier=both
+// @h c06_has_default_float_arrays tier=both
+// @h c06_has_default_float_objects tier=both
+// @h c06_has_default_unresolved_absent_null_bool tier=both
+// @h c06_has_default_unresolved_numbers tier=both
+// @h c06_has_default_unresolved_strings tier=both
+// @h c06_has_default_unresolved_arrays tier=both
+// @h c06_has_default_unresolved_objects tier=both
 // @canary canary_c06_has_default
 //
 // C06 -- classification of a property default (`structs::has_default`).
@@ -47,40 +83,58 @@ enum Shape {
     Object1,
 }
 
-fn any_default() -> (Option<Value>, Shape) {
-    let sel: u8 = kani::any();
-    match sel {
-        0 => (None, Shape::Absent),
-        1 => (Some(Value::Null), Shape::Null),
+/// `group` is concrete per harness (five groups of shapes); payloads are symbolic.
+fn any_default(group: u8) -> (Option<Value>, Shape) {
+    let sel: bool = kani::any();
+    match group {
+        0 => {
+            if sel {
+                (None, Shape::Absent)
+            } else if kani::any() {
+                (Some(Value::Null), Shape::Null)
+            } else {
+                let b: bool = kani::any();
+                (Some(Value::Bool(b)), Shape::Bool(b))
+            }
+        }
+        1 => {
+            if sel {
+                let u: u64 = kani::any();
+                (Some(Value::Number(serde_json::Number::from(u))), Shape::PosInt(u))
+            } else if kani::any() {
+                let i: i64 = kani::any();
+                kani::assume(i < 0);
+                (Some(Value::Number(serde_json::Number::from(i))), Shape::NegInt(i))
+            } else {
+                let f = any_finite();
+                (
+                    Some(Value::Number(serde_json::Number::from_f64(f).unwrap())),
+                    Shape::Float(f),
+                )
+            }
+        }
         2 => {
-            let b: bool = kani::any();
-            (Some(Value::Bool(b)), Shape::Bool(b))
+            if sel {
+                (Some(Value::String(String::new())), Shape::EmptyStr)
+            } else {
+                (Some(Value::String(String::from("x"))), Shape::Str)
+            }
         }
         3 => {
-            let u: u64 = kani::any();
-            (Some(Value::Number(serde_json::Number::from(u))), Shape::PosInt(u))
+            if sel {
+                (Some(Value::Array(Vec::new())), Shape::EmptyArray)
+            } else {
+                (Some(Value::Array(vec![Value::Null])), Shape::Array1)
+            }
         }
-        4 => {
-            let i: i64 = kani::any();
-            kani::assume(i < 0);
-            (Some(Value::Number(serde_json::Number::from(i))), Shape::NegInt(i))
-        }
-        5 => {
-            let f = any_finite();
-            (
-                Some(Value::Number(serde_json::Number::from_f64(f).unwrap())),
-                Shape::Float(f),
-            )
-        }
-        6 => (Some(Value::String(String::new())), Shape::EmptyStr),
-        7 => (Some(Value::String(String::from("x"))), Shape::Str),
-        8 => (Some(Value::Array(Vec::new())), Shape::EmptyArray),
-        9 => (Some(Value::Array(vec![Value::Null])), Shape::Array1),
-        10 => (Some(Value::Object(serde_json::Map::new())), Shape::EmptyObject),
         _ => {
-            let mut m = serde_json::Map::new();
-            m.insert(String::from("k"), Value::Null);
-            (Some(Value::Object(m)), Shape::Object1)
+            if sel {
+                (Some(Value::Object(serde_json::Map::new())), Shape::EmptyObject)
+            } else {
+                let mut m = serde_json::Map::new();
+                m.insert(String::from("k"), Value::Null);
+                (Some(Value::Object(m)), Shape::Object1)
+            }
         }
     }
 }
@@ -98,14 +152,14 @@ enum Kind {
     Unresolved,
 }
 
-fn check(details: Option<TypeEntryDetails>, kind: Kind) {
+fn check(details: Option<TypeEntryDetails>, kind: Kind, group: u8) {
     let mut ts = empty_type_space();
     let id = TypeId(1);
     if let Some(d) = details {
         let e: TypeEntry = d.into();
         ts.id_to_entry.insert(TypeId(1), e);
     }
-    let (default, shape) = any_default();
+    let (default, shape) = any_default(group);
     let state = has_default(&mut ts, &id, default.as_ref());
     match (&state, shape) {
         (StructPropertyState::Optional, Shape::Absent) => kani::assert(
@@ -145,34 +199,72 @@ fn check(details: Option<TypeEntryDetails>, kind: Kind) {
             kani::assert(false, "[C06/P4a] schema default dropped (property treated as having none)")
         }
     }
-    kani::cover!(matches!(state, StructPropertyState::Default(_)), "[must] Default(d) reachable");
-    kani::cover!(shape == Shape::Absent, "[must] absent default reachable");
+    kani::cover!(
+        matches!(state, StructPropertyState::Default(_)) || shape == Shape::Absent,
+        "[must] Default(d) or the absent case reachable"
+    );
     core::mem::forget(state);
     core::mem::forget(default);
     core::mem::forget(ts);
 }
 
 macro_rules! h {
-    ($name:ident, $details:expr, $kind:expr) => {
+    ($name:ident, $details:expr, $kind:expr, $group:expr) => {
         #[kani::proof]
         #[kani::unwind(24)]
         #[kani::stub(crate::MapType::new, crate::verif_common::stub_map_type_new)]
         #[kani::stub(crate::util::sanitize, crate::verif_common::stub_sanitize)]
         fn $name() {
-            check($details, $kind)
+            check($details, $kind, $group)
         }
     };
 }
 
-h!(c06_has_default_option, Some(TypeEntryDetails::Option(TypeId(7))), Kind::Option);
-h!(c06_has_default_vec, Some(TypeEntryDetails::Vec(TypeId(7))), Kind::Vec);
-h!(c06_has_default_map, Some(TypeEntryDetails::Map(TypeId(7), TypeId(8))), Kind::Map);
-h!(c06_has_default_unit, Some(TypeEntryDetails::Unit), Kind::Unit);
-h!(c06_has_default_boolean, Some(TypeEntryDetails::Boolean), Kind::Boolean);
-h!(c06_has_default_integer, Some(TypeEntryDetails::Integer("i64".to_string())), Kind::Integer);
-h!(c06_has_default_string, Some(TypeEntryDetails::String), Kind::String);
-h!(c06_has_default_float, Some(TypeEntryDetails::Float("f64".to_string())), Kind::Other);
-h!(c06_has_default_unresolved, None, Kind::Unresolved);
+h!(c06_has_default_option_absent_null_bool, Some(TypeEntryDetails::Option(TypeId(7))), Kind::Option, 0);
+h!(c06_has_default_option_numbers, Some(TypeEntryDetails::Option(TypeId(7))), Kind::Option, 1);
+h!(c06_has_default_option_strings, Some(TypeEntryDetails::Option(TypeId(7))), Kind::Option, 2);
+h!(c06_has_default_option_arrays, Some(TypeEntryDetails::Option(TypeId(7))), Kind::Option, 3);
+h!(c06_has_default_option_objects, Some(TypeEntryDetails::Option(TypeId(7))), Kind::Option, 4);
+h!(c06_has_default_vec_absent_null_bool, Some(TypeEntryDetails::Vec(TypeId(7))), Kind::Vec, 0);
+h!(c06_has_default_vec_numbers, Some(TypeEntryDetails::Vec(TypeId(7))), Kind::Vec, 1);
+h!(c06_has_default_vec_strings, Some(TypeEntryDetails::Vec(TypeId(7))), Kind::Vec, 2);
+h!(c06_has_default_vec_arrays, Some(TypeEntryDetails::Vec(TypeId(7))), Kind::Vec, 3);
+h!(c06_has_default_vec_objects, Some(TypeEntryDetails::Vec(TypeId(7))), Kind::Vec, 4);
+h!(c06_has_default_map_absent_null_bool, Some(TypeEntryDetails::Map(TypeId(7), TypeId(8))), Kind::Map, 0);
+h!(c06_has_default_map_numbers, Some(TypeEntryDetails::Map(TypeId(7), TypeId(8))), Kind::Map, 1);
+h!(c06_has_default_map_strings, Some(TypeEntryDetails::Map(TypeId(7), TypeId(8))), Kind::Map, 2);
+h!(c06_has_default_map_arrays, Some(TypeEntryDetails::Map(TypeId(7), TypeId(8))), Kind::Map, 3);
+h!(c06_has_default_map_objects, Some(TypeEntryDetails::Map(TypeId(7), TypeId(8))), Kind::Map, 4);
+h!(c06_has_default_unit_absent_null_bool, Some(TypeEntryDetails::Unit), Kind::Unit, 0);
+h!(c06_has_default_unit_numbers, Some(TypeEntryDetails::Unit), Kind::Unit, 1);
+h!(c06_has_default_unit_strings, Some(TypeEntryDetails::Unit), Kind::Unit, 2);
+h!(c06_has_default_unit_arrays, Some(TypeEntryDetails::Unit), Kind::Unit, 3);
+h!(c06_has_default_unit_objects, Some(TypeEntryDetails::Unit), Kind::Unit, 4);
+h!(c06_has_default_boolean_absent_null_bool, Some(TypeEntryDetails::Boolean), Kind::Boolean, 0);
+h!(c06_has_default_boolean_numbers, Some(TypeEntryDetails::Boolean), Kind::Boolean, 1);
+h!(c06_has_default_boolean_strings, Some(TypeEntryDetails::Boolean), Kind::Boolean, 2);
+h!(c06_has_default_boolean_arrays, Some(TypeEntryDetails::Boolean), Kind::Boolean, 3);
+h!(c06_has_default_boolean_objects, Some(TypeEntryDetails::Boolean), Kind::Boolean, 4);
+h!(c06_has_default_integer_absent_null_bool, Some(TypeEntryDetails::Integer("i64".to_string())), Kind::Integer, 0);
+h!(c06_has_default_integer_numbers, Some(TypeEntryDetails::Integer("i64".to_string())), Kind::Integer, 1);
+h!(c06_has_default_integer_strings, Some(TypeEntryDetails::Integer("i64".to_string())), Kind::Integer, 2);
+h!(c06_has_default_integer_arrays, Some(TypeEntryDetails::Integer("i64".to_string())), Kind::Integer, 3);
+h!(c06_has_default_integer_objects, Some(TypeEntryDetails::Integer("i64".to_string())), Kind::Integer, 4);
+h!(c06_has_default_string_absent_null_bool, Some(TypeEntryDetails::String), Kind::String, 0);
+h!(c06_has_default_string_numbers, Some(TypeEntryDetails::String), Kind::String, 1);
+h!(c06_has_default_string_strings, Some(TypeEntryDetails::String), Kind::String, 2);
+h!(c06_has_default_string_arrays, Some(TypeEntryDetails::String), Kind::String, 3);
+h!(c06_has_default_string_objects, Some(TypeEntryDetails::String), Kind::String, 4);
+h!(c06_has_default_float_absent_null_bool, Some(TypeEntryDetails::Float("f64".to_string())), Kind::Other, 0);
+h!(c06_has_default_float_numbers, Some(TypeEntryDetails::Float("f64".to_string())), Kind::Other, 1);
+h!(c06_has_default_float_strings, Some(TypeEntryDetails::Float("f64".to_string())), Kind::Other, 2);
+h!(c06_has_default_float_arrays, Some(TypeEntryDetails::Float("f64".to_string())), Kind::Other, 3);
+h!(c06_has_default_float_objects, Some(TypeEntryDetails::Float("f64".to_string())), Kind::Other, 4);
+h!(c06_has_default_unresolved_absent_null_bool, None, Kind::Unresolved, 0);
+h!(c06_has_default_unresolved_numbers, None, Kind::Unresolved, 1);
+h!(c06_has_default_unresolved_strings, None, Kind::Unresolved, 2);
+h!(c06_has_default_unresolved_arrays, None, Kind::Unresolved, 3);
+h!(c06_has_default_unresolved_objects, None, Kind::Unresolved, 4);
 
 #[kani::proof]
 #[kani::unwind(24)]
